@@ -1,7 +1,7 @@
 use rten_base::num::IsNaN;
 use rten_shape_inference::UnaryOp;
 use rten_tensor::prelude::*;
-use rten_tensor::{Tensor, TensorView};
+use rten_tensor::{SliceItem, Tensor, TensorView};
 use smallvec::SmallVec;
 
 use crate::buffer_pool::{AutoReturn, BufferPool};
@@ -78,10 +78,30 @@ pub fn scatter_elements<
     }
     let axis = resolve_axis(data.ndim(), axis)?;
 
+    // `indices` may be smaller than `data` along any dimension. Along
+    // dimensions other than `axis`, only the leading positions are updated.
+    if (0..data.ndim()).any(|dim| dim != axis && indices.size(dim) > data.size(dim)) {
+        return Err(OpError::InvalidValue(
+            "`indices` is larger than `data` along a non-scatter axis",
+        ));
+    }
+
     let axis_size = data.size(axis);
     let mut output = data.to_tensor_in(pool);
 
-    for (output_lane, (update_lane, index_lane)) in output
+    // Region of the output whose lanes correspond to the lanes of `indices`.
+    let update_region: Vec<SliceItem> = (0..data.ndim())
+        .map(|dim| {
+            if dim == axis {
+                (0..axis_size).into()
+            } else {
+                (0..indices.size(dim)).into()
+            }
+        })
+        .collect();
+    let mut update_region = output.slice_mut(update_region.as_slice());
+
+    for (output_lane, (update_lane, index_lane)) in update_region
         .lanes_mut(axis)
         .zip(updates.lanes(axis).zip(indices.lanes(axis)))
     {
